@@ -307,3 +307,5 @@ def run(ctx: Context) -> None:  # noqa: F811
 
     ctx.rep.rule('C10.R8', 'TLS configuration, protocol flags, origins and the connect target (uds / local_address) reach every connection unchanged (store link + pass link at every constructor call)')
     plumb.plumbing(ctx, 'C10.R8', ['ssl_context', 'proxy_ssl_context', 'http1', 'http2', 'origin', 'remote_origin', 'proxy_origin', 'uds', 'local_address'])
+    ctx.rep.rule('C10.R9', 'a URL / Origin rebuilt from another one copies scheme, host and port from the same-named components of the same object')
+    plumb.derived_identity(ctx, 'C10.R9')
